@@ -20,7 +20,7 @@ def load_known():
         line = line.strip()
         if not line or line.startswith("#"):
             continue
-        m = re.match(r"known:\s+property=(\S+)\s+key=(\S+)\s+::\s*(.*)$", line)
+        m = re.match(r"known:\s+property=(\S+)\s+key=(.+?)\s+::\s+(.*)$", line)
         if m:
             known[(m.group(1), m.group(2))] = m.group(3)
             continue
